@@ -23,7 +23,9 @@
 //! where `127.0.0.1:<port>` is rewritten to `HOST` in file contents and URLs.
 
 use crate::common::*;
+use breakpad_symbols::fuzzing_private_exports::WinStackThing;
 use breakpad_symbols::{HttpSymbolSupplier, SimpleModule, SymbolError, SymbolFile, SymbolSupplier};
+use std::fmt::Write as _;
 use std::collections::BTreeMap;
 use std::future::Future;
 use std::io::{Read, Write};
@@ -798,9 +800,91 @@ fn setup_dirs(c: &Case, m: &Mod) -> Dirs {
 
 // ------------------------------------------------------------------------------------------ one run
 
+/// canonical dump of a symbol table WITHOUT its URL — the text of `MdModel.Sym.dump {t with url := none}`
+/// (the same format engine `sym` compares field by field)
+fn dump_table(f: &SymbolFile) -> String {
+    let mut s = String::new();
+    let hx = |t: &str| hex(t.as_bytes());
+    let _ = write!(s, "mod={},{};files:", hx(&f.module_id), hx(&f.debug_file));
+    let mut files: Vec<_> = f.files.iter().collect();
+    files.sort();
+    s.push_str(&files.iter().map(|(k, v)| format!("{k}={}", hx(v))).collect::<Vec<_>>().join(","));
+    s.push_str(";origins:");
+    let mut origins: Vec<_> = f.inline_origins.iter().collect();
+    origins.sort();
+    s.push_str(&origins.iter().map(|(k, v)| format!("{k}={}", hx(v))).collect::<Vec<_>>().join(","));
+    s.push_str(";pub:");
+    s.push_str(&f.publics.iter().map(|p| format!("{}/{}/{}", p.address, p.parameter_size, hx(&p.name))).collect::<Vec<_>>().join(","));
+    s.push_str(";func:");
+    let mut first = true;
+    for (r, func) in f.functions.ranges_values() {
+        if !first {
+            s.push(';');
+        }
+        first = false;
+        let _ = write!(s, "{}-{} {} {} {} {} L[", r.start, r.end, func.address, func.size, func.parameter_size, hx(&func.name));
+        s.push_str(
+            &func.lines.ranges_values().map(|(r, l)| format!("{}-{} {} {} {} {}", r.start, r.end, l.address, l.size, l.file, l.line)).collect::<Vec<_>>().join(","),
+        );
+        s.push_str("] I[");
+        s.push_str(
+            &func
+                .inlinees
+                .iter()
+                .map(|i| format!("{} {} {} {} {} {}", i.depth, i.address, i.size, i.call_file, i.call_line, i.origin_id))
+                .collect::<Vec<_>>()
+                .join(","),
+        );
+        s.push(']');
+    }
+    s.push_str(";cfi:");
+    s.push_str(
+        &f.cfi_stack_info
+            .ranges_values()
+            .map(|(r, c)| {
+                format!(
+                    "{}-{} {} {} {} A[{}]",
+                    r.start,
+                    r.end,
+                    c.init.address,
+                    c.size,
+                    hx(&c.init.rules),
+                    c.add_rules.iter().map(|a| format!("{}:{}", a.address, hx(&a.rules))).collect::<Vec<_>>().join(",")
+                )
+            })
+            .collect::<Vec<_>>()
+            .join(";"),
+    );
+    for (label, table) in [(";wfd:", &f.win_stack_framedata_info), (";wfpo:", &f.win_stack_fpo_info)] {
+        s.push_str(label);
+        s.push_str(
+            &table
+                .ranges_values()
+                .map(|(r, w)| {
+                    let t = match &w.program_string_or_base_pointer {
+                        WinStackThing::ProgramString(p) => format!("P{}", hx(p)),
+                        WinStackThing::AllocatesBasePointer(b) => (if *b { "B1" } else { "B0" }).to_string(),
+                    };
+                    format!(
+                        "{}-{} {} {} {} {} {} {} {} {} {}",
+                        r.start, r.end, w.address, w.size, w.prologue_size, w.epilogue_size, w.parameter_size, w.saved_register_size, w.local_size, w.max_stack_size, t
+                    )
+                })
+                .collect::<Vec<_>>()
+                .join(";"),
+        );
+    }
+    s.push_str(";url=none");
+    s
+}
+
 fn class_of(r: &Result<breakpad_symbols::LocateSymbolsResult, SymbolError>, port: Origin) -> String {
     match r {
-        Ok(l) => format!("ok:{}", l.symbols.url.as_deref().map(|u| canon_str(u, port)).unwrap_or("-".into())),
+        Ok(l) => format!(
+            "ok:{}#{:016x}",
+            l.symbols.url.as_deref().map(|u| canon_str(u, port)).unwrap_or("-".into()),
+            fnv64(dump_table(&l.symbols).as_bytes())
+        ),
         Err(SymbolError::NotFound) => "notfound".into(),
         Err(SymbolError::ParseError(..)) => "parse-error".into(),
         Err(SymbolError::LoadError(_)) => "load-error".into(),
@@ -1070,12 +1154,29 @@ fn run_once(c: &Case, m: &Mod, prep: &Prepared, drop_at: Option<usize>) -> RunOb
             let _g = rt.enter();
             HttpSymbolSupplier::new(vec![], d.cache.clone(), d.tmp.clone(), vec![], Duration::from_secs(1))
         };
-        let r = rt.block_on(s2.locate_symbols(&md));
-        r
+        let kind = match c.file.as_str() {
+            "bin" => Some(breakpad_symbols::FileKind::Binary),
+            "pdb" => Some(breakpad_symbols::FileKind::ExtraDebugInfo),
+            _ => None,
+        };
+        match kind {
+            None => rt.block_on(s2.locate_symbols(&md)),
+            // the opaque path: `found` is reported as `MissingDebugFileOrId` (see `class_of_file`)
+            Some(k) => match rt.block_on(s2.locate_file(&md, k)) {
+                Ok(_) => Err(SymbolError::MissingDebugFileOrId),
+                Err(_) => Err(SymbolError::NotFound),
+            },
+        }
     });
     match r2 {
         Ok(r) => {
-            obs.second = class_of(&r, port);
+            obs.second = if c.file == "sym" {
+                class_of(&r, port)
+            } else if matches!(r, Err(SymbolError::MissingDebugFileOrId)) {
+                "found".into()
+            } else {
+                "notfound".into()
+            };
             if let Ok(l) = r {
                 obs.second_table = Some(l.symbols);
             }
@@ -1286,7 +1387,8 @@ fn build_model_request(c: &Case, m: &Mod, prep: &Prepared) -> String {
             resp_events(0, i, i, &mut evs);
         }
     }
-    let url = |prefix: String| hex(format!("http://HOST/{prefix}/{}", m.server_rel).as_bytes());
+    let (cache_rel, server_rel) = rels(m, &c.file);
+    let url = |prefix: String| hex(format!("http://HOST/{prefix}/{server_rel}").as_bytes());
     let tasks: Vec<String> = if c.race {
         vec![format!("t:{}", url("t0s0".into())), format!("t:{}", url("t1s0".into()))]
     } else if c.resps.is_empty() {
@@ -1295,8 +1397,10 @@ fn build_model_request(c: &Case, m: &Mod, prep: &Prepared) -> String {
         vec![format!("t:{}", (0..c.resps.len()).map(|i| url(format!("s{i}"))).collect::<Vec<_>>().join(";"))]
     };
     format!(
-        "cache p:{} n:{} l:{} e:{} d:{} {}",
-        hex(m.cache_rel.as_bytes()),
+        "cache {}:{} n:{} l:{} e:{} d:{} {}",
+        // `p:` = locate_symbols (symbol file, real parser model); `q:` = locate_file (opaque download)
+        if c.file == "sym" { "p" } else { "q" },
+        hex(cache_rel.as_bytes()),
         initial_node(c, m),
         if c.pre == "local" { hex(&pre_bytes("valid", m)) } else { "none".into() },
         evs.join(","),
@@ -1305,12 +1409,14 @@ fn build_model_request(c: &Case, m: &Mod, prep: &Prepared) -> String {
     )
 }
 
-/// bodies with a line the toy parser of the model has no counterpart for (the real parser's
-/// over-long-line recovery, C09's subject): such cases are checked by the oracle only
+/// Bodies with a line of 80–160 KiB: what the real parser does with such a line depends on where it
+/// sits in its window, i.e. on the chunks the client happens to see (outside C10's domain of chunk
+/// independence) — the model is fed the server's pieces, so such cases are checked by the oracle only.
+/// Shorter lines, and lines beyond the 160 KiB window (dropped by recovery under every chunking), are compared.
 fn outside_model(c: &Case) -> bool {
     c.resps.iter().any(|r| {
         r.body.split('+').any(|p| {
-            (p.starts_with('L') || p.starts_with('M')) && p[1..].parse::<usize>().map(|k| k > 70000).unwrap_or(false)
+            (p.starts_with('L') || p.starts_with('M')) && p[1..].parse::<usize>().map(|k| k > 80000 && k < 165000).unwrap_or(false)
         })
     })
 }
@@ -1495,8 +1601,7 @@ impl Engine for Cache {
 
     fn model_request(&self, case: &str) -> Option<String> {
         let c = parse_case(case)?;
-        if skipped_for_root(&c) || outside_model(&c) || c.file != "sym" {
-            // (`file:bin|pdb`: the opaque download path is not modelled — oracle only)
+        if skipped_for_root(&c) || outside_model(&c) {
             return None;
         }
         let m = &MODULES[c.m];
